@@ -17,7 +17,7 @@ OBLIGATIONS = [NS + t for t in [
     "mclass_error_eq_count_sign", "binary_error_iff_sign",
     # benchmark functions
     "sphere_subgrad", "axis_ellipsoid_subgrad", "schumer_steiglitz_subgrad", "chung_reynolds_subgrad", "sargan_subgrad",
-    "zakharov_subgrad", "rotated_ellipsoid_subgrad", "trid_subgrad", "quadratic_subgrad", "maxq_subgrad",
+    "zakharov_subgrad", "rotated_ellipsoid_subgrad", "trid_subgrad", "quadratic_subgrad", "maxq_subgrad", "maxhilb_subgrad",
     "chained_lq_subgrad", "kinks_subgrad", "chained_cb3I_subgrad", "chained_cb3II_subgrad", "exponential_fn_subgrad",
     "geometric_subgrad",
     # constraints
@@ -70,7 +70,7 @@ RULE = ("corpus; all function prototypes of function_t::all() x dims (quick: 1, 
         "evaluation; 11 constraint kinds with random coefficients (symmetric P); linear / gboost bias, scale, grads / surrogate fit "
         "objectives over random in-memory datasets (regression, single-label, multi-label). Tolerances: model vs implementation: relative 1e-9 "
         "per number or absolute 1e-13 x the largest magnitude of the result line (at least 1e-13 for s-classnll: probability minus one); convexity: violation > 1e-9 x (|f(x)|+|f(z)|+sum|g_i dz_i|+"
-        "mu/2|dz|^2) + 1e-15; difference quotient: |D - g.dx| > 1e-6 |g.dx| + 2 |D(2h) - 2 D(h)| + 2e-11 x max|f|, relaxed to 'g.dx between the "
+        "mu/2|dz|^2) + 64 eps x max(1,|x|_inf,|z|_inf); difference quotient: |D - g.dx| > 1e-6 |g.dx| + 2 |D(2h) - 2 D(h)| + 2e-11 x max|f|, relaxed to 'g.dx between the "
         "one-sided differences' for objects not declared smooth. A case is non-trivial when it is a constructed tie/kink/boundary case (#tag) "
         "or has dimension >= 2 (functions, constraints, objectives) / >= 2 outputs (losses); distinct by op text")
 FLAVOUR = {"quick": "plain", "thorough": "asan"}
@@ -731,7 +731,9 @@ def check_convex(name, fam, info, mu, x, fx, gx, z, fz):
     gd = dotp(gx, dz)
     q = 0.5 * mu * dotp(dz, dz)
     scale = abs(fx) + abs(fz) + math.fsum(abs(a * b) for a, b in zip(gx, dz)) + q
-    tol = 1e-9 * scale + 1e-15
+    # + rounding of the evaluation itself: values are formed from intermediates of the size of the coordinates (e.g.
+    # s-classnll adds and subtracts the largest output), so an absolute error of a few ulps of max|x_i|, |z_i| is noise
+    tol = 1e-9 * scale + 64.0 * EPS * max([1.0] + [abs(v) for v in x] + [abs(v) for v in z])
     if not finite(fx, fz, gd):
         return f"[{name}:non-finite] non-finite value or gradient: f(x)={fx} f(z)={fz} g.(z-x)={gd}"
     viol = fx + gd + q - fz
